@@ -1,0 +1,329 @@
+//go:build verif
+
+// Contracts for package seq, read by /verif's verification-condition generator.
+// This file contains comments only; it is compiled into nothing.
+
+package seq
+
+// ---------------------------------------------------------------- range iterators (C10, C04)
+
+//@ model IPos(i *integerIter) := i.i + 1     -- number of MoveNext calls so far
+//@ model IBound(i *integerIter) := i.n
+
+//@ func NewIntegerIter(n) (it)
+//@   reveal IPos, IBound
+//@   ensures[fresh] fresh(it)
+//@   ensures[init] IPos(ptr(it)) == 0 && IBound(ptr(it)) == n
+
+//@ func (i *integerIter) MoveNext() (ok)
+//@   requires 0 <= IPos(i) && IPos(i) < MaxInt
+//@   ensures[advance] IPos(i) == old(IPos(i)) + 1 && IBound(i) == old(IBound(i))
+//@   ensures[ok] ok == (old(IPos(i)) < IBound(i))
+//@   modifies IPos(i)
+
+//@ func (i *integerIter) Current() (p)
+//@   ensures[key] p.Key == IPos(i) - 1
+//@   ensures[val] isnil(p.Val)
+
+//@ model SStr(s *stringIter) := s.str
+//@ model SNext(s *stringIter) := s.next
+//@ model SKey(s *stringIter) := s.key
+//@ model SVal(s *stringIter) := s.val
+
+//@ func NewStringIter(str) (it)
+//@   reveal SStr, SNext
+//@   ensures[fresh] fresh(it)
+//@   ensures[init] same(SStr(ptr(it)), str) && SNext(ptr(it)) == 0
+
+//@ func (s *stringIter) MoveNext() (ok)
+//@   requires 0 <= SNext(s) && SNext(s) <= len(SStr(s))
+//@   ensures[ok] ok == (old(SNext(s)) < len(SStr(s)))
+//@   ensures[str] same(SStr(s), old(SStr(s)))
+//@   ensures[pair] ok ==> SKey(s) == old(SNext(s)) && SVal(s) == RangeRune(SStr(s), SKey(s))
+//@                        && SNext(s) == SKey(s) + RangeWidth(SStr(s), SKey(s))
+//@   ensures[stay] !ok ==> SNext(s) == old(SNext(s)) && SKey(s) == old(SKey(s)) && SVal(s) == old(SVal(s))
+//@   ensures[inv] old(SNext(s)) <= SNext(s) && SNext(s) <= len(SStr(s)) && (ok ==> old(SNext(s)) < SNext(s))
+//@   modifies SNext(s), SKey(s), SVal(s)
+
+//@ func (s *stringIter) Current() (p)
+//@   ensures[pair] p.Key == SKey(s) && p.Val == SVal(s)
+
+//@ extern utf8.DecodeRuneInString(s) (r, w)
+//@   ensures r == decr(sbase(s), soff(s), soff(s) + slen(s)) && w == decw(sbase(s), soff(s), soff(s) + slen(s))
+//@   ensures len(s) > 0 ==> 1 <= w && w <= len(s)
+//@   ensures len(s) == 0 ==> w == 0
+
+//@ model LHdr(s *sliceIter) := s.slice
+//@ model LIdx(s *sliceIter) := s.idx
+
+//@ func NewSliceIter(slice) (it)
+//@   reveal LHdr, LIdx
+//@   ensures[fresh] fresh(it)
+//@   ensures[init] same(LHdr(ptr(it)), slice) && LIdx(ptr(it)) == -1
+
+//@ func (s *sliceIter[V]) MoveNext() (ok)
+//@   requires -1 <= LIdx(s) && LIdx(s) < MaxInt
+//@   ensures[advance] LIdx(s) == old(LIdx(s)) + 1 && same(LHdr(s), old(LHdr(s)))
+//@   ensures[ok] ok == (LIdx(s) < len(LHdr(s)))
+//@   modifies LIdx(s)
+
+//@ func (s *sliceIter[V]) Current() (p)
+//@   requires 0 <= LIdx(s) && LIdx(s) < len(LHdr(s))
+//@   ensures[pair] p.Key == LIdx(s) && p.Val == LHdr(s)[LIdx(s)]
+
+//@ model MIt(m *mapIter) := m.iter
+
+//@ extern reflect.ValueOf(i) (v)
+//@   ensures v == rv_of(i)
+//@ extern (reflect.Value).MapRange(v) (it)
+//@   ensures it == rv_maprange(v) && it != nil
+//@ extern (*reflect.MapIter).Next(it) (ok)
+//@   ensures ok == mi_has(it, W) && W == mi_adv(it, old(W))
+//@   modifies W
+//@ extern (*reflect.MapIter).Key(it) (v)
+//@   ensures v == mi_key(it, W)
+//@ extern (*reflect.MapIter).Value(it) (v)
+//@   ensures v == mi_val(it, W)
+//@ extern (reflect.Value).Interface(v) (i)
+//@   ensures i == rv_iface(v)
+
+//@ func NewMapIter(m) (it)
+//@   reveal MIt
+//@   ensures[fresh] fresh(it)
+//@   ensures[init] MIt(ptr(it)) == rv_maprange(rv_of(m))
+
+//@ func (m *mapIter[K, V]) MoveNext() (ok)
+//@   requires MIt(m) != nil
+//@   ensures[step] ok == mi_has(MIt(m), W) && W == mi_adv(MIt(m), old(W)) && MIt(m) == old(MIt(m))
+//@   modifies W
+
+//@ func (m *mapIter[K, V]) Current() (p)
+//@   requires MIt(m) != nil
+//@   -- A-reflect (assumed): Interface() of the current key/value boxes the typed key/value; it is the nil
+//@   -- interface only when the type argument is an interface type and the element is nil.
+//@   requires AssertsTo(rv_iface(mi_key(MIt(m), W)), K) ==> AssertVal(rv_iface(mi_key(MIt(m), W)), K) == mi_keyK(MIt(m), W)
+//@   requires !AssertsTo(rv_iface(mi_key(MIt(m), W)), K) ==> IsIfaceParam(K) && mi_keyK(MIt(m), W) == zero_TP_K
+//@   requires AssertsTo(rv_iface(mi_val(MIt(m), W)), V) ==> AssertVal(rv_iface(mi_val(MIt(m), W)), V) == mi_valV(MIt(m), W)
+//@   requires !AssertsTo(rv_iface(mi_val(MIt(m), W)), V) ==> IsIfaceParam(V) && mi_valV(MIt(m), W) == zero_TP_V
+//@   ensures[pair] p.Key == mi_keyK(MIt(m), W) && p.Val == mi_valV(MIt(m), W)
+//@   ensures[pure] W == old(W)
+
+//@ model CCh(c *chanIter) := c.ch
+//@ model CV(c *chanIter) := c.v
+
+//@ func NewChanIter(ch) (it)
+//@   reveal CCh
+//@   ensures[fresh] fresh(it)
+//@   ensures[init] CCh(ptr(it)) == ch
+
+//@ func (c *chanIter[V]) MoveNext() (ok)
+//@   ensures[recv] ok == recv_ok(CCh(c), old(W)) && CV(c) == recv_val_TP_V(CCh(c), old(W)) && W == recv_world(CCh(c), old(W))
+//@   ensures[chan] CCh(c) == old(CCh(c))
+//@   modifies CV(c), W
+
+//@ func (c *chanIter[V]) Current() (p)
+//@   ensures[key] p.Key == CV(c) && isnil(p.Val)
+
+// ---------------------------------------------------------------- universal contracts of the function types (DESIGN §3.1)
+// M, Start, Deliver, LoopHead, FSeq2, FLoop, Top, Sh* come from /verif/spec/machine.smt2.
+// W is the ghost world (user heap + effect log); user closures are uninterpreted transformers of W.
+
+//@ type-contract lazy () (r)
+//@   ensures W == lazy_w(self, old(W)) && r == lazy_ret(self, old(W))
+//@   modifies W
+//@ type-contract lazyRecv (x) (r)
+//@   ensures W == lazyr_w(self, x, old(W)) && r == lazyr_ret(self, x, old(W))
+//@   modifies W
+//@ type-contract func()bool () (r)
+//@   ensures W == cond_w(self, old(W)) && r == cond_ret(self, old(W))
+//@   modifies W
+//@ type-contract func() ()
+//@   ensures W == post_w(self, old(W))
+//@   modifies W
+//@ type-contract Seq (c, k)
+//@   requires c != nil && k != nil && Co(k) == c
+//@   requires c.step == nil
+//@   refines Start(self, stackOf(k))
+//@   co c
+//@ type-contract cont (t, v)
+//@   requires 0 <= t && t <= 3
+//@   requires Co(self) != nil
+//@   requires as(Co(self), co).step == nil
+//@   refines Deliver(sigOf(t), v, stackOf(self))
+//@   co as(Co(self), co)
+//@ type-contract next (recv) (r)
+//@   requires Co(self) != nil
+//@   requires as(Co(self), co).step == nil
+//@   ensures[world] W == fo_w(FoNext(self, recv, old(W)))
+//@   ensures[step-cleared] as(Co(self), co).step == nil
+//@   ensures[nil] (r == nil) == is_NoPend(fo_pend(FoNext(self, recv, old(W))))
+//@   ensures[step] r != nil ==> fresh(r) && r.next != nil && r.value == pd_v(fo_pend(FoNext(self, recv, old(W))))
+//@        && nres(r.next) == pd_r(fo_pend(FoNext(self, recv, old(W))))
+//@        && nst(r.next) == pd_s(fo_pend(FoNext(self, recv, old(W)))) && Co(r.next) == Co(self)
+//@   ensures[result] fieldmap(generator.result) == resW(FoNext(self, recv, old(W)), old(fieldmap(generator.result)))
+//@   modifies W, as(Co(self), co).step, fieldmap(generator.result)
+
+// ---------------------------------------------------------------- combinators (C08, C02, C14, C17, C18)
+
+//@ func mkNextRecv(f, c, k) (n)
+//@   requires c != nil && k != nil && Co(k) == c
+//@   ensures[attrs] n != nil && nres(n) == f && nst(n) == stackOf(k) && Co(n) == c
+//@   ensures[pure] W == old(W)
+//@ closure mkNextRecv#0 (recv) (r)
+//@   ghost nres(self) == f && nst(self) == stackOf(k) && Co(self) == c
+
+//@ func mkNext(f, c, k) (n)
+//@   requires c != nil && k != nil && Co(k) == c
+//@   ensures[attrs] n != nil && nres(n) == wrapL(f) && nst(n) == stackOf(k) && Co(n) == c
+//@   ensures[pure] W == old(W)
+//@ closure mkNext#0 (x) (r)
+//@   ghost self == wrapL(f)
+
+//@ func newGenerator(next) (d)
+//@   ensures[fresh] fresh(d)
+//@   ensures[init] d.next == next && !d.started && d.current == zero_TP_V && d.result == zero_TP_V
+//@   ensures[pure] W == old(W)
+
+//@ func Start(seq) (it)
+//@   ensures[fresh] fresh(it)
+//@   ensures[init] !as(ptr(it), generator).started && as(ptr(it), generator).current == zero_TP_V
+//@        && as(ptr(it), generator).next != nil
+//@        && nres(as(ptr(it), generator).next) == wrapL(constL(seq))
+//@        && nst(as(ptr(it), generator).next) == Top(ptr(it))
+//@   ensures[co] Co(as(ptr(it), generator).next) != nil && fresh(Co(as(ptr(it), generator).next))
+//@        && as(Co(as(ptr(it), generator).next), co).step == nil
+//@   ensures[pure] W == old(W)
+//@ closure Start#0 () (r)
+//@   ghost self == constL(seq)
+//@ closure Start#1 (t, v)
+//@   ghost stackOf(self) == Top(it)
+//@   ghost Co(self) == theNew(co)
+//@   captured-inv it != nil
+
+//@ func Bind(v, f) (s)
+//@   ensures[shape] s != nil && shape(s) == ShBind(v, f)
+//@   ensures[pure] W == old(W)
+//@ closure Bind#0 (c, k)
+//@   ghost shape(self) == ShBind(v, f)
+
+//@ func BindRecv(v, f) (s)
+//@   ensures[shape] s != nil && shape(s) == ShBindR(v, f)
+//@   ensures[pure] W == old(W)
+//@ closure BindRecv#0 (c, k)
+//@   ghost shape(self) == ShBindR(v, f)
+
+//@ func For(cond, post, body) (s)
+//@   ensures[shape] s != nil && shape(s) == ShFor(cond, post, body)
+//@   ensures[pure] W == old(W)
+//@ closure For#0 (c, k)
+//@   ghost shape(self) == ShFor(cond, post, body)
+//@ closure For#0.0 (skipPost)
+//@   requires c.step == nil
+//@   refines LoopHead(skipPost, cond, post, body, stackOf(k))
+//@   co c
+//@ closure For#0.0.0 (t, v)
+//@   ghost stackOf(self) == FLoop(cond, post, body, stackOf(k)) && Co(self) == c
+
+//@ func While(cond, body) (s)
+//@   ensures[shape] s != nil && shape(s) == ShFor(cond, nil, body)
+//@   ensures[pure] W == old(W)
+//@ func Loop(body) (s)
+//@   ensures[shape] s != nil && shape(s) == ShFor(nil, nil, body)
+//@   ensures[pure] W == old(W)
+
+//@ func Delay(f) (s)
+//@   ensures[shape] s != nil && shape(s) == ShDelay(f)
+//@   ensures[pure] W == old(W)
+//@ closure Delay#0 (c, k)
+//@   ghost shape(self) == ShDelay(f)
+
+//@ func Combine(s1, s2) (s)
+//@   ensures[shape] s != nil && shape(s) == ShCombine(s1, s2)
+//@   ensures[pure] W == old(W)
+//@ closure Combine#0 (c, k)
+//@   ghost shape(self) == ShCombine(s1, s2)
+//@ closure Combine#0.0 (t, v)
+//@   ghost stackOf(self) == FSeq2(s2, stackOf(k)) && Co(self) == c
+
+//@ func seqOfK(kt) (s)
+//@   requires 0 <= kt && kt <= 3
+//@   ensures[shape] s != nil && shape(s) == ShOfSig(kt)
+//@   ensures[pure] W == old(W)
+//@ closure seqOfK#0 (c, k)
+//@   ghost shape(self) == ShOfSig(kt)
+
+//@ func Normal() (s)
+//@   ensures[shape] s != nil && shape(s) == ShNormal
+//@   ensures[pure] W == old(W)
+//@ func Break() (s)
+//@   ensures[shape] s != nil && shape(s) == ShBreak
+//@   ensures[pure] W == old(W)
+//@ func Continue() (s)
+//@   ensures[shape] s != nil && shape(s) == ShContinue
+//@   ensures[pure] W == old(W)
+//@ func Return() (s)
+//@   ensures[shape] s != nil && shape(s) == ShReturn
+//@   ensures[pure] W == old(W)
+//@ func ReturnValue(v) (s)
+//@   ensures[shape] s != nil && shape(s) == ShRetV(v)
+//@   ensures[pure] W == old(W)
+//@ closure ReturnValue#0 (c, k)
+//@   ghost shape(self) == ShRetV(v)
+
+// ---------------------------------------------------------------- generator (C09, C02, C18)
+
+//@ pred GenInv(d *generator) := (d.next == nil ==> d.current == zero_TP_V)
+//@        && (d.next != nil ==> Co(d.next) != nil && as(Co(d.next), co).step == nil)
+
+//@ func (d *generator[V]) Result() (r)
+//@   ensures[value] r == d.result
+//@   ensures[pure] W == old(W)
+
+//@ func (d *generator[V]) Current() (r)
+//@   ensures[value] r == d.current
+//@   ensures[pure] W == old(W)
+
+//@ func (d *generator[V]) moveNext(sent) (ok)
+//@   requires GenInv(d)
+//@   ensures[inv] GenInv(d)
+//@   ensures[started] d.started == old(d.started)
+//@   ensures[exhausted] old(d.next) == nil ==> !ok && W == old(W) && d.next == nil && d.current == old(d.current)
+//@        && fieldmap(generator.result) == old(fieldmap(generator.result))
+//@   ensures[advance] old(d.next) != nil ==> (let fo := FoNext(old(d.next), sent, old(W)) in
+//@           W == fo_w(fo)
+//@        && (is_NoPend(fo_pend(fo)) ==> !ok && d.next == nil && d.current == zero_TP_V)
+//@        && (!is_NoPend(fo_pend(fo)) ==> ok && d.next != nil && d.current == pd_v(fo_pend(fo))
+//@               && nres(d.next) == pd_r(fo_pend(fo)) && nst(d.next) == pd_s(fo_pend(fo)) && Co(d.next) == Co(old(d.next)))
+//@        && fieldmap(generator.result) == resW(fo, old(fieldmap(generator.result))))
+//@   modifies d.next, d.current, W, fieldmap(co.step), fieldmap(generator.result)
+
+//@ func (d *generator[V]) MoveNext() (ok)
+//@   requires GenInv(d)
+//@   ensures[inv] GenInv(d)
+//@   ensures[started] d.started
+//@   ensures[exhausted] old(d.next) == nil ==> !ok && W == old(W) && d.next == nil && d.current == zero_TP_V
+//@        && fieldmap(generator.result) == old(fieldmap(generator.result))
+//@   ensures[advance] old(d.next) != nil ==> (let fo := FoNext(old(d.next), zero_TP_V, old(W)) in
+//@           W == fo_w(fo)
+//@        && (is_NoPend(fo_pend(fo)) ==> !ok && d.next == nil && d.current == zero_TP_V)
+//@        && (!is_NoPend(fo_pend(fo)) ==> ok && d.next != nil && d.current == pd_v(fo_pend(fo))
+//@               && nres(d.next) == pd_r(fo_pend(fo)) && nst(d.next) == pd_s(fo_pend(fo)) && Co(d.next) == Co(old(d.next)))
+//@        && fieldmap(generator.result) == resW(fo, old(fieldmap(generator.result))))
+//@   modifies d.started, d.next, d.current, W, fieldmap(co.step), fieldmap(generator.result)
+
+//@ func (d *generator[V]) Send(v) (y, ok)
+//@   requires GenInv(d)
+//@   ensures[inv] GenInv(d)
+//@   ensures[yield] (ok ==> y == d.current && d.next != nil) && (!ok ==> y == zero_TP_V && d.next == nil && d.current == zero_TP_V)
+//@   ensures[exhausted] old(d.next) == nil ==> !ok && W == old(W) && fieldmap(generator.result) == old(fieldmap(generator.result))
+//@   ensures[resume] old(d.started) && old(d.next) != nil ==> (let fo := FoNext(old(d.next), v, old(W)) in
+//@           W == fo_w(fo) && ok == !is_NoPend(fo_pend(fo))
+//@        && (ok ==> d.current == pd_v(fo_pend(fo)) && nres(d.next) == pd_r(fo_pend(fo)) && nst(d.next) == pd_s(fo_pend(fo)))
+//@        && fieldmap(generator.result) == resW(fo, old(fieldmap(generator.result))))
+//@   ensures[autostart] !old(d.started) && old(d.next) != nil ==> d.started && (let fo1 := FoNext(old(d.next), zero_TP_V, old(W)) in
+//@           (is_NoPend(fo_pend(fo1)) ==> !ok && W == fo_w(fo1) && fieldmap(generator.result) == resW(fo1, old(fieldmap(generator.result))))
+//@        && (!is_NoPend(fo_pend(fo1)) ==> (let fo2 := M(Start(lazyr_ret(pd_r(fo_pend(fo1)), v, fo_w(fo1)), pd_s(fo_pend(fo1))), lazyr_w(pd_r(fo_pend(fo1)), v, fo_w(fo1))) in
+//@               W == fo_w(fo2) && ok == !is_NoPend(fo_pend(fo2))
+//@            && (ok ==> d.current == pd_v(fo_pend(fo2)) && nres(d.next) == pd_r(fo_pend(fo2)) && nst(d.next) == pd_s(fo_pend(fo2)))
+//@            && fieldmap(generator.result) == resW(fo2, resW(fo1, old(fieldmap(generator.result)))))))
+//@   modifies d.started, d.next, d.current, W, fieldmap(co.step), fieldmap(generator.result)
